@@ -42,7 +42,15 @@ func (u *Unit) Query(o *Oblig) string {
 	var sb strings.Builder
 	sb.WriteString(prelude)
 	sb.WriteString(u.e.S.decls())
+	dup := map[string]bool{}
 	for _, l := range u.Lines[:o.NLines] {
+		if strings.HasPrefix(l, "(assert ") {
+			// the same side fact is often emitted at several reads
+			if dup[l] {
+				continue
+			}
+			dup[l] = true
+		}
 		sb.WriteString(l)
 		sb.WriteString("\n")
 	}
